@@ -22,6 +22,22 @@
          does not yet hold DATA_SHREDS distinct indices of every slice has produced no Block;
        - C13_dissem_shreds_available: every delivered shred, every shred of a slice that reached DATA_SHREDS,
          and after completion EVERY (slice, index < TOTAL_SHREDS) is stored as the leader's shred.
+   (a') THE UNSIGNED TAG (current tree: "fix: do not blame the leader for a shred whose type contradicts its
+       index"; bs_step = bs_step_gen true).  A shred whose data / coding tag contradicts its index
+       (shred_tag_ok s = false) is refused up front:
+       - C13_tag_flip_is_harmless: in every non-panicked slot state, for dissemination and repair alike, the
+         step returns InvalidShred, emits nothing and leaves the state - the leader's flag included - unchanged;
+       - C13_dissem_run_filter_tag: for ANY delivery list the run has the state and the events of the run over
+         the tag-consistent shreds, and its outputs are those with one (InvalidShred, no event) per refused shred
+         woven in (weave_refusals);
+       - C13_dissem_flipped_run_is_spec / C13_dissem_flipped_safe: (a) extended to every list of honest shreds
+         with ARBITRARY tag-inconsistent shreds slipped in (honest_or_flipped; any number, anywhere): the complete
+         output stream is expected_outs of the honest shreds with the refusals woven in; the leader is never
+         flagged, nothing panics, no InvalidBlock, and the Block is announced exactly once, exactly when the
+         tag-consistent shreds make every slice ready (so the honest block is still reconstructed from the
+         remaining shreds), and stored;
+       - C13_pinned_tag_flip_flags_correct_leader_refuted: the pinned tree (bs_step_gen false) flagged the correct
+         leader for one flipped tag among the honest shreds of a block, and never announced the block.
    (b) ARBITRARY shred sequences (no honesty assumption; any shreds, any order), same run:
        - C13_dissem_never_panics: the blockstore never panics and never returns the panic outcome;
        - C13_dissem_invalid_once: InvalidBlock is announced at most once, exactly when the leader gets flagged;
@@ -33,12 +49,14 @@
          parent, legal parent handover ending in the announced parent, parent in an earlier slot) - malformed
          blocks are never announced, whatever the shreds and their order;
        - C13_dissem_equivocation_flagged: two delivered shreds of one slice with different commitments (slice
-         root or last-slice flag) - at any positions, in either order, among any other shreds - get the leader
-         flagged and InvalidBlock announced exactly once (covers a block with a conflicting validly signed slice);
+         root or last-slice flag), each with a tag consistent with its index (a tag-inconsistent shred is
+         refused unseen and is evidence of nothing, (a')) - at any positions, in either order, among any other
+         shreds - get the leader flagged and InvalidBlock announced exactly once (covers a block with a
+         conflicting validly signed slice);
        - C13_dissem_last_marker_conflict_flagged: likewise for a last-slice marker contradicted by a shred of a
          later slice or by a last-slice marker on another slice;
        - C13_dissem_revealed_equivocation_flagged: both with the decidable hypothesis
-         reveals_conflict l || reveals_last_conflict l = true.
+         reveals_conflict l' || reveals_last_conflict l' = true for l' = filter shred_tag_ok l.
    (c) the leader's own fast path (add_own_slice for the slices of an honest block, in order; bs_ops_run over
        own_ops hb):
        - C13_own_path_spec: no panic, not flagged, FirstShred then Block(hash, parent) and nothing else, the
@@ -61,7 +79,7 @@
    the harness with the real DoubleMerkleTree. *)
 From Coq Require Import List NArith Bool.
 From AG Require Import Gen.Params Model.Pool Model.Blockstore Model.BlockstoreSpec Proofs.BlockstoreProofs Proofs.BlockstoreOrderProofs
-  Proofs.BlockstoreFlagProofs Proofs.BlockstoreOwnProofs.
+  Proofs.BlockstoreFlagProofs Proofs.BlockstoreOwnProofs Proofs.BlockstoreTagProofs.
 Import ListNotations.
 Open Scope N_scope.
 
@@ -159,6 +177,62 @@ Example C13_nonvacuous :
     = [BBlock [100; 101] (4, 88)].
 Proof. vm_compute. repeat split; reflexivity. Qed.
 
+(* ---------- the unsigned data / coding tag ---------- *)
+Theorem C13_tag_flip_is_harmless : forall chk ct slot sd op,
+  sd_panicked sd = false -> op_tag_ok op = false ->
+  bs_step chk ct slot sd op = (sd, BRErr EInvalidShred, []).
+Proof. exact bs_step_tag_bad. Qed.
+
+Theorem C13_dissem_run_filter_tag : forall ct slot l,
+  fst (bs_dissem_run ct slot l) = fst (bs_dissem_run ct slot (filter shred_tag_ok l)) /\
+  snd (bs_dissem_run ct slot l) = weave_refusals l (snd (bs_dissem_run ct slot (filter shred_tag_ok l))).
+Proof. exact run_filter_tag. Qed.
+
+Theorem C13_dissem_flipped_run_is_spec : forall slot ct hb l,
+  hb_ok slot ct hb = true -> forallb (honest_or_flipped hb) l = true ->
+  snd (bs_dissem_run ct slot l) = weave_refusals l (expected_outs ct hb [] (filter shred_tag_ok l)).
+Proof. exact dissem_flipped_run_is_spec. Qed.
+
+Theorem C13_dissem_flipped_safe : forall slot ct hb l,
+  hb_ok slot ct hb = true -> forallb (honest_or_flipped hb) l = true ->
+  sd_misbehaved (fst (bs_dissem_run ct slot l)) = false /\
+  sd_panicked (fst (bs_dissem_run ct slot l)) = false /\
+  (forall r ev, In (r, ev) (snd (bs_dissem_run ct slot l)) ->
+     (r = BRErr EDuplicate \/ (exists x, r = BROk x) \/ (r = BRErr EInvalidShred /\ ev = [])) /\ ~ In BInvalidBlock ev) /\
+  exists parent, hb_parent ct hb = Some parent /\ fst parent < slot /\
+    filter is_block_event (out_events (snd (bs_dissem_run ct slot l))) =
+      (if block_ready hb (filter shred_tag_ok l) then [BBlock (hb_hash hb) parent] else []) /\
+    bd_completed (sd_dissem (fst (bs_dissem_run ct slot l))) =
+      (if block_ready hb (filter shred_tag_ok l) then Some (hb_hash hb, parent) else None).
+Proof. exact dissem_flipped_safe. Qed.
+
+Theorem C13_pinned_tag_flip_flags_correct_leader_refuted :
+  hb_ok 2 tf_ct tf_hb = true /\ forallb (honest_or_flipped tf_hb) tf_shreds = true /\
+  block_ready tf_hb (filter shred_tag_ok tf_shreds) = true /\
+  sd_misbehaved (fst (bs_dissem_run_gen false tf_ct 2 tf_shreds)) = true /\
+  out_events (snd (bs_dissem_run_gen false tf_ct 2 tf_shreds)) = [BFirstShred; BInvalidBlock] /\
+  sd_misbehaved (fst (bs_dissem_run_gen true tf_ct 2 tf_shreds)) = false /\
+  out_events (snd (bs_dissem_run_gen true tf_ct 2 tf_shreds)) = [BFirstShred; BBlock [1] (1, 3)].
+Proof. exact pinned_tag_flip_flags_correct_leader. Qed.
+
+(* non-vacuity: the two-slice example with three honest shreds flipped in transit (one of them the very first
+   delivery) and a flipped shred of a foreign root slipped in: still exactly FirstShred and the Block, no
+   InvalidBlock, four refusals; and a conflicting shred whose tag is flipped is NOT evidence (no flag) while the
+   same shred with a consistent tag is *)
+(* a validly signed shred of slice 1 under another root *)
+Definition ex_conflict : bshred := mkBS 1 true 999 7 true 32.
+Definition ex_flipped : list bshred :=
+  [flip_tag (hshred ex_hb 1 63)] ++ firstn 40 ex_shreds ++ [flip_tag (hshred ex_hb 0 3); flip_tag ex_conflict]
+  ++ skipn 40 ex_shreds ++ [flip_tag (hshred ex_hb 1 2)].
+Example C13_nonvacuous_tag_flips :
+  forallb (honest_or_flipped ex_hb) ex_flipped = true /\ forallb (honest_shred ex_hb) ex_flipped = false /\
+  block_ready ex_hb (filter shred_tag_ok ex_flipped) = true /\
+  out_events (snd (bs_dissem_run ex_ct 5 ex_flipped)) = [BFirstShred; BBlock [100; 101] (4, 88)] /\
+  length (filter (fun o => match fst o with BRErr EInvalidShred => true | _ => false end) (snd (bs_dissem_run ex_ct 5 ex_flipped))) = 4%nat /\
+  sd_misbehaved (fst (bs_dissem_run ex_ct 5 (ex_shreds ++ [flip_tag ex_conflict]))) = false /\
+  sd_misbehaved (fst (bs_dissem_run ex_ct 5 (ex_shreds ++ [ex_conflict]))) = true.
+Proof. vm_compute. repeat split; reflexivity. Qed.
+
 (* ---------- arbitrary shred sequences ---------- *)
 Theorem C13_dissem_never_panics : forall c slot l,
   sd_panicked (fst (bs_dissem_run c slot l)) = false /\
@@ -179,21 +253,21 @@ Theorem C13_dissem_silent_after_flag : forall c slot l1 l2,
 Proof. exact dissem_silent_after_flag. Qed.
 
 Theorem C13_dissem_equivocation_flagged : forall c slot l s1 s2,
-  In s1 l -> In s2 l -> b_slice s1 = b_slice s2 ->
+  In s1 l -> In s2 l -> shred_tag_ok s1 = true -> shred_tag_ok s2 = true -> b_slice s1 = b_slice s2 ->
   commit_eqb (commitment_of s1) (commitment_of s2) = false ->
   sd_misbehaved (fst (bs_dissem_run c slot l)) = true /\
   filter is_invalid_event (out_events (snd (bs_dissem_run c slot l))) = [BInvalidBlock].
 Proof. exact dissem_equivocation_flagged. Qed.
 
 Theorem C13_dissem_last_marker_conflict_flagged : forall c slot l s1 s2,
-  In s1 l -> In s2 l -> b_last s1 = true ->
+  In s1 l -> In s2 l -> shred_tag_ok s1 = true -> shred_tag_ok s2 = true -> b_last s1 = true ->
   b_slice s1 < b_slice s2 \/ (b_last s2 = true /\ b_slice s1 <> b_slice s2) ->
   sd_misbehaved (fst (bs_dissem_run c slot l)) = true /\
   filter is_invalid_event (out_events (snd (bs_dissem_run c slot l))) = [BInvalidBlock].
 Proof. exact dissem_last_marker_conflict_flagged. Qed.
 
 Theorem C13_dissem_revealed_equivocation_flagged : forall c slot l,
-  reveals_conflict l || reveals_last_conflict l = true ->
+  reveals_conflict (filter shred_tag_ok l) || reveals_last_conflict (filter shred_tag_ok l) = true ->
   sd_misbehaved (fst (bs_dissem_run c slot l)) = true /\
   filter is_invalid_event (out_events (snd (bs_dissem_run c slot l))) = [BInvalidBlock].
 Proof. exact dissem_revealed_equivocation_flagged. Qed.
@@ -212,13 +286,13 @@ Qed.
 (* non-vacuity: the honest example with ONE conflicting shred of slice 1 (another root) slipped in at
    position 40 (before the block is complete), resp. appended at the end (after the Block was announced);
    and a shred of slice 2 after the last-slice marker of slice 1 *)
-Definition ex_conflict : bshred := mkBS 1 true 999 7 true 32.
 Example C13_nonvacuous_equivocation :
   let l1 := firstn 40 ex_shreds ++ [ex_conflict] ++ skipn 40 ex_shreds in
   let l2 := ex_shreds ++ [ex_conflict] in
   let l3 := ex_shreds ++ [mkBS 2 false 102 0 true 32] in
-  reveals_conflict l1 = true /\ reveals_conflict l2 = true /\ reveals_last_conflict l3 = true /\
-  reveals_conflict ex_shreds || reveals_last_conflict ex_shreds = false /\
+  reveals_conflict (filter shred_tag_ok l1) = true /\ reveals_conflict (filter shred_tag_ok l2) = true /\
+  reveals_last_conflict (filter shred_tag_ok l3) = true /\
+  reveals_conflict (filter shred_tag_ok ex_shreds) || reveals_last_conflict (filter shred_tag_ok ex_shreds) = false /\
   filter (fun e => negb (is_first_event e)) (out_events (snd (bs_dissem_run ex_ct 5 l1))) = [BInvalidBlock] /\
   filter (fun e => negb (is_first_event e)) (out_events (snd (bs_dissem_run ex_ct 5 l2)))
     = [BBlock [100; 101] (4, 88); BInvalidBlock] /\
@@ -260,6 +334,12 @@ Print Assumptions C13_dissem_block_once.
 Print Assumptions C13_dissem_no_block_before_ready.
 Print Assumptions C13_dissem_shreds_available.
 Print Assumptions C13_nonvacuous.
+Print Assumptions C13_tag_flip_is_harmless.
+Print Assumptions C13_dissem_run_filter_tag.
+Print Assumptions C13_dissem_flipped_run_is_spec.
+Print Assumptions C13_dissem_flipped_safe.
+Print Assumptions C13_pinned_tag_flip_flags_correct_leader_refuted.
+Print Assumptions C13_nonvacuous_tag_flips.
 Print Assumptions C13_dissem_never_panics.
 Print Assumptions C13_dissem_invalid_once.
 Print Assumptions C13_dissem_silent_after_flag.
